@@ -145,6 +145,7 @@ pub fn run(cfg: &Cfg, rep: &mut Report) {
             ctx.nontrivial(mix(h64, ending as u64));
             dev.clear();
             let mut resp: Vec<u8> = Vec::new();
+            c.mav = rng.chance(1, 3);
             let r = built.root().run(&msg, &mut dev, &mut c, &mut resp);
             let detail = |dev: &Dev| {
                 jobj(&[("message", jbytes(&msg)), ("hex", jstr(&hex(&msg))), ("arity(m required,o optional) per unit", jstr(&format!("{:?}", plan.iter().map(|p| (arity[p.0], p.2.len())).collect::<Vec<_>>()))), ("result", jstr(&format!("{:?}", r.as_ref().err().map(|e| e.get_code())))), ("log", jstr(&format!("{:?}", dev.log)))])
@@ -282,6 +283,9 @@ impl scpi::Device for TDev {
 
 struct TypedCmd {
     pulls: Vec<(bool, TK)>,
+    /// a handler that does not give up at the first -109: asks again this many times and then either returns the
+    /// error or carries on with a default (returns Ok)
+    persist: Option<(usize, bool)>,
 }
 
 impl TypedCmd {
@@ -303,6 +307,17 @@ impl TypedCmd {
                         Ok(v) => dev.got.push($wrap(v)),
                         Err(e) => {
                             dev.got.push(TV::Err(e.get_code()));
+                            if let (Some((again, swallow)), -109) = (self.persist, e.get_code()) {
+                                for _ in 0..again {
+                                    match params.next_data::<$t>() {
+                                        Ok(v) => dev.got.push($wrap(v)),
+                                        Err(e) => dev.got.push(TV::Err(e.get_code())),
+                                    }
+                                }
+                                if swallow {
+                                    return Ok(());
+                                }
+                            }
                             return Err(e);
                         }
                     }
@@ -351,7 +366,8 @@ pub fn run_typed(cfg: &Cfg, rep: &mut Report) {
         bump(ctx, 1);
         let np = rng.usize(6);
         let pulls: Vec<(bool, TK)> = (0..np).map(|_| (rng.chance(2, 5), *rng.pick(&[TK::I64, TK::F64, TK::Bytes, TK::Arb, TK::Chr]))).collect();
-        let cmd = TypedCmd { pulls: pulls.clone() };
+        let persist = if rng.chance(1, 4) { Some((1 + rng.usize(3), rng.bool())) } else { None };
+        let cmd = TypedCmd { pulls: pulls.clone(), persist };
         let fol = Follower;
         // A[:SUB] (default leaf inside a branch), TYPed (plain leaf), B (follower): all through the constructors
         let sub = [Node::default_leaf(b"SUB", &cmd), Node::leaf(b"OTHer", &fol)];
@@ -418,6 +434,17 @@ pub fn run_typed(cfg: &Cfg, rep: &mut Report) {
             } else {
                 want.push(TV::Err(-109));
                 expect_err = Some(-109);
+                if let Some((again, swallow)) = persist {
+                    // asking again never produces anything but -109 (in particular no element of the next unit);
+                    // a handler that then carries on has completed its unit
+                    for _ in 0..again {
+                        want.push(TV::Err(-109));
+                    }
+                    if swallow {
+                        expect_err = None;
+                    }
+                    ctx.count("typed.persistent-handler");
+                }
                 break;
             }
         }
